@@ -1,4 +1,4 @@
-import PepperProofs.ConstraintGenComp
+import PepperProofs.ConstraintGenTotal
 /-!
 # C04 — designer constraint arrays are the exact closure of the specification
 
@@ -172,6 +172,22 @@ theorem arrays_exact {mode : Layout} {stmts : List Stmt} {spec : Spec}
     obtain ⟨_, _, ch, hch, _⟩ := G.key i hlt hk
     rw [hch] at hi; cases hi
   exact ⟨(G.blank i hlt hk).1, (G.blank i hlt hk).2.1⟩
+
+/-- **C04 for the strand layout, without side conditions**: `arrays_exact` where the seeding hypotheses are
+    discharged (`seeding_total_strand`). -/
+theorem arrays_exact_strand {stmts : List Stmt} {spec : Spec}
+    (hload : Pil.load Generated.nupackTable stmts {} = .ok spec)
+    {a : Arrays} (ha : getConstraints .strand spec = .ok a) :
+    a.2.1.length = a.1.length ∧ a.2.2.length = a.1.length ∧
+    (∀ i : Nat, a.2.2[i]? = some none → a.1[i]? = some none ∧ a.2.1[i]? = some none) ∧
+    ∀ (i : Nat) (ch : Char), a.2.2[i]? = some (some ch) →
+      ∃ m v w, denOf .strand spec i = some m ∧ a.1[i]? = some v ∧ a.2.1[i]? = some w ∧
+        SemMin .strand spec a m false v ∧ SemMin .strand spec a m true w ∧
+        (∀ b, hasB (Generated.pilTable.maskC ch) b ↔
+          ∀ u q, ParityReach (Pil.denote spec) m.var q u →
+            okVar Generated.pilTable (Pil.denote spec) u (flipB (flipB b m.comp) q)) := by
+  obtain ⟨s, c, hs, hb⟩ := seeding_total_strand (load_wf hload)
+  exact arrays_exact hload hs hb ha
 
 /-- **Same representative ⟺ forced equal**: two non-blank indices receive the same entry of `eq` exactly when the
     specification forces their nucleotides equal. -/
